@@ -68,7 +68,7 @@ Qed.
 
 
 (* one turn of readLine, as an account of the unread bytes *)
-Lemma read_line_turn_line B buf l n line : 0 < B -> read_line_turn B buf l = (n, RlLine line) ->
+Lemma read_line_turn_line lp B buf l n line : 0 < B -> read_line_turn lp B buf l = (n, RlLine line) ->
   line = buf ++ firstn n l /\ n <= length l /\ 0 < n /\ good_rec B line.
 Proof.
   intros HB. unfold read_line_turn. destruct (read_slice B l) as [x st] eqn:R.
@@ -86,20 +86,27 @@ Proof.
     + f_equal. exact P.
     + lia.
     + right. split; [rewrite app_length; lia|]. destruct x; [cbn in L; lia|]. destruct buf; discriminate.
-  - destruct (buf ++ x); discriminate.
+  - destruct lp; [destruct (buf ++ x)|]; discriminate.
 Qed.
 
-Lemma read_line_turn_sleep B buf l n b' : read_line_turn B buf l = (n, RlSleep b') ->
-  b' = buf ++ l /\ n = length l /\ ~ In nl l /\ b' <> [].
+(* the sleep inside readLine: only the reader that loops *)
+Lemma read_line_turn_sleep lp B buf l n b' : read_line_turn lp B buf l = (n, RlSleep b') ->
+  b' = buf ++ l /\ n = length l /\ ~ In nl l /\ b' <> [] /\ lp = true.
 Proof.
   unfold read_line_turn. destruct (read_slice B l) as [x st] eqn:R. destruct st; try discriminate.
   destruct (read_slice_eof _ _ _ R) as (-> & NI & _).
+  destruct lp; [|discriminate].
   destruct (buf ++ l) eqn:E; [discriminate|]. intros H. injection H as <- <-. repeat split; auto. discriminate.
 Qed.
 
-Lemma read_line_turn_eof B buf l n : read_line_turn B buf l = (n, RlEof) -> buf = [] /\ l = [].
+(* (nil, io.EOF): everything unread has been consumed into the partial line kept for the next call;
+   the reader that loops returns it only with nothing kept *)
+Lemma read_line_turn_eof lp B buf l n b' : read_line_turn lp B buf l = (n, RlEof b') ->
+  b' = buf ++ l /\ n = length l /\ ~ In nl l /\ (lp = true -> b' = []).
 Proof.
   unfold read_line_turn. destruct (read_slice B l) as [x st] eqn:R. destruct st; try discriminate.
-  destruct (read_slice_eof _ _ _ R) as (-> & _ & _).
-  destruct (buf ++ l) eqn:E; [|discriminate]. intros _. apply app_eq_nil in E. exact E.
+  destruct (read_slice_eof _ _ _ R) as (-> & NI & _).
+  destruct lp.
+  - destruct (buf ++ l) eqn:E; [|discriminate]. intros H. injection H as <- <-. repeat split; auto.
+  - intros H. injection H as <- <-. repeat split; auto. discriminate.
 Qed.
